@@ -86,7 +86,12 @@ def neighbourhood_families(P, G, tier, **kw):
     tm = [('colon', 'resp', RESP_LINE + b'Na', b'v\r\n\r\n', RESP_HDR_SYM), ('colon-req', 'req', REQ_LINE + b'Na', b'v\n\n', REQ_HDR_SYM),
           ('value-start', 'resp', RESP_LINE + b'N:', b'v\r\n\r\n', RESP_HDR_SYM), ('value-end', 'resp', RESP_LINE + b'N:v', b'\r\n\r\n', RESP_HDR_SYM),
           ('after-eol', 'resp', RESP_LINE + b'N:v\r\n', b'w\r\n\r\n', RESP_HDR_SYM), ('line-start', 'resp', RESP_LINE, b'N:v\r\n\r\n', RESP_HDR_SYM),
-          ('second-line', 'req', REQ_LINE + b'A:b\r\n', b':v\r\n\r\n', REQ_HDR_SYM)]
+          ('second-line', 'req', REQ_LINE + b'A:b\r\n', b':v\r\n\r\n', REQ_HDR_SYM),
+          # start-line windows followed by real headers (offsets of everything after the window depend on it)
+          ('reason', 'resp', b'HTTP/1.1 200 ', b'A: b\nCc: d\n\n', flags(multi_sp_resp='sym')), ('reason-end', 'resp', b'HTTP/1.0 404 N', b'\nA: b\r\n\r\n', flags(multi_sp_resp='sym')),
+          ('code', 'resp', b'HTTP/1.1 ', b' OK\r\nA: b\r\n\r\n', flags(multi_sp_resp='sym')),
+          ('target', 'req', b'GET /', b' HTTP/1.1\nA: b\n\n', flags(multi_sp_req='sym')), ('version', 'req', b'PUT /a HTTP/1', b'A: b\r\n\r\n', flags(multi_sp_req='sym')),
+          ('method', 'req', b'', b' / HTTP/1.1\r\nA: b\r\n\r\n', flags(multi_sp_req='sym'))]
     for nm, kind, pre, suf, fl in tm:
         J += deepen(P, G, 'nb-' + nm, lambda n, kind=kind, pre=pre, suf=suf, fl=fl: sc(kind, n, prefix=pre, suffix=suf, api='cfg', fl=fl, cap=2),
                     range(1, top + 1), bud, f'{kind} {pre!r} + ' + '{n} symbolic bytes + ' + f'{suf!r}, header options symbolic', 3, **kw)
